@@ -369,7 +369,8 @@ def run(cx):
     if b:
         r = cx.retval(b)
         e = match('(call OPoint::add $acc (field coords (self center)))', r)
-        adds = [cx.arg(s, 1) for s in b.calls('OPoint::add_assign')]
+        from vpa import comp as CMP
+        adds = [CMP.canon2(cx.arg(s, 1)) for s in b.calls('OPoint::add_assign')]       # index loop or basis.iter().zip(point.iter()): one position for both
         oka = len(adds) == 1 and match('(call Matrix::mul (index (self basis) $i) (index (param point) $i))', adds[0]) is not None
         cx.ob('EXPR', 'SvdBasis::point_from_basis', e is not None and oka, 'result = sum_i basis[i]*point[i] + centre (inverse shape of point_to_basis)', where=b.file, found=r)
     b = cx.fn('common::svd_basis::SvdBasis::basis_variances')
